@@ -776,7 +776,8 @@ def run(ctx):
                         hooks[g.bname] = h_convert
                 it = _Interp(P, [], hooks=hooks, max_steps=2000000)
                 it.fields = {FLD + 'buffer_': _Cell(_Arr([_AV.const(0xEE)] * N_, 'buffer_')), FLD + 'output_': _Cell(_AV.const(0x77)), FLD + 'output_stream_': _Cell(_AV.const(0x77))}
-                msg = [(7 * j + 3) % 251 for j in range(M)]
+                # every byte value occurs; 0xFF (which a narrowing to char turns into EOF) and 0x00 sit where the put area overflows
+                msg = [0xFF if (j % N_ == 0 and j and (j // N_) % 2 == 1) else (0x00 if (j % N_ == 0 and j) else (7 * j + 3) % 256) for j in range(M)]
                 try:
                     it.call_fn(fns_['ctor'], [])
                     if st['pbase'] is None or st['epptr'] is None or st['epptr'].off - st['pbase'].off <= 0:
